@@ -16,7 +16,7 @@ from pyexpat import XMLParserType
 from xmlschema.aliases import IOType
 from xmlschema.exceptions import XMLSchemaTypeError, XMLSchemaValueError, \
     XMLResourceError, XMLResourceForbidden, XMLResourceOSError, XMLResourceParseError
-from xmlschema.utils.streams import DefusableReader
+from xmlschema.utils.streams import DefusableReader, DefusableTextReader
 
 
 class SafeExpatParser(expatreader.ExpatParser):  # type: ignore[misc, unused-ignore]
@@ -47,7 +47,7 @@ def defuse_xml(fp: IOType, rewind: bool = True) -> IOType:
     Defuses an XML source using a file-like object. For default the file-like object
     must be seekable because the file-like object is rewound to start position after
     the check. If it's not seekable, the file-like object is wrapped in a buffered
-    reader if it's a `io.RawIOBase` or a `io.BufferedIOBase` object.
+    reader if it's a `io.RawIOBase`, a `io.BufferedIOBase` or a `io.TextIOBase` object.
 
     :param fp: the file-like object to defuse.
     :param rewind: if `True` the file-like object is rewound after defusing.
@@ -60,11 +60,15 @@ def defuse_xml(fp: IOType, rewind: bool = True) -> IOType:
             # on a not seekable raw stream can't be rewound either).
             fp = io.BufferedReader(fp)
 
-        if isinstance(fp, io.BufferedIOBase):
-            # Other not seekable BufferedIOBase resources are wrapped in
-            # a custom reader with an initial buffer of 64KiB bytes.
+        if isinstance(fp, (io.BufferedIOBase, io.TextIOBase)):
+            # Other not seekable BufferedIOBase resources and not seekable text
+            # streams are wrapped in a custom reader with an initial buffer of
+            # 64KiB bytes/characters.
             try:
-                fp = DefusableReader(fp)
+                if isinstance(fp, io.TextIOBase):
+                    fp = DefusableTextReader(fp)
+                else:
+                    fp = DefusableReader(fp)
             except (OSError, TypeError, ValueError) as err:
                 if isinstance(err, OSError):
                     raise XMLResourceOSError(err)
